@@ -371,7 +371,9 @@ def run_property(modname: str, tier: str, seed: int) -> int:
 
     extra_cov = {}
     if hasattr(mod, "finalize"):
-        fin = mod.finalize(tier, seed, {"budget_left": max(0.0, t0 + budget - time.time()), "workers": nworkers})
+        fin = mod.finalize(tier, seed, {"budget_left": max(0.0, t0 + budget - time.time()), "workers": nworkers,
+                                        "evaluations": evaluations, "distinct": len(all_sigs),
+                                        "per_space": per_space})
         extra_cov = fin.get("coverage", {})
         for v in fin.get("viol", []):
             viol_count += 1
